@@ -1,5 +1,6 @@
-use vkit::Check;
+mod c07;
+mod util;
+use vkit::{Check, Level};
 fn main() {
-    let checks: &[Check] = &[];
-    vkit::main(checks);
+    vkit::main(&[Check { id: "C07", level: Level::Exploration, run: c07::run }]);
 }
